@@ -140,6 +140,17 @@ CHECKS = {
              'transient result.',
         design='5/C14', technique='virtual-time stall enumeration on real server and relay, TLC trace validation against TLA+ observers',
         note='Every gevent Timeout is virtualised (harness/vt.py). HTTP relay stalls are not driven yet. ' + TB),
+    'C19': dict(
+        level='model_checking',
+        text='RelayPool.tla models callers, pool clients (new / idle / busy / ended), the request deque and the link callback '
+             'as separate steps; TLC checks bound, own-result, no-stranding and one-at-a-time for pool sizes 1-3 and unbounded '
+             'with and without connection reuse, and finds the stranded request when respawning is switched off. Real '
+             'StaticSmtpRelay / StaticLmtpRelay pools with 2-4 staggered attempts over scripted connections (failures, stalls, '
+             'refused connections, reuse) are validated by TLC against the pool observer: live connections <= size, result '
+             'carries the marker of its own envelope, every attempt returns, one message at a time per connection, RSET after a '
+             'failed transaction.',
+        design='5/C19', technique='TLA+ pool model (TLC exhaustive, deviation switch) + TLC trace validation of real pool executions',
+        note='In-memory scripted downstream; HTTP pool clients not driven yet. ' + TB),
 }
 
 HOOK_COMMITS = []
